@@ -667,12 +667,18 @@ class Dfg(DfBase[ops.DFG]):
 
 
 def _ancestral_sibling(h: Hugr, src: Node, tgt: Node) -> Node | None:
-    """Find the ancestor of `tgt` that is a sibling of `src`, if one exists."""
+    """Find the ancestor of `tgt` that is a sibling of `src`, if one exists.
+
+    A value cannot be wired into the body of a function from outside of it, so
+    the search does not leave a function definition.
+    """
     src_parent = h[src].parent
 
     while (tgt_parent := h[tgt].parent) is not None:
         if tgt_parent == src_parent:
             return tgt
+        if isinstance(h[tgt_parent].op, ops.FuncDefn):
+            return None
         tgt = tgt_parent
 
     return None
